@@ -131,6 +131,13 @@ func (w *World) Shutdown() {
 	}
 	w.Phase = "shutdown"
 	w.OnPark = nil
+	w.fwdMu.Lock()
+	w.silentDone = true
+	if w.Silent != nil {
+		close(w.Silent)
+		w.Silent = nil
+	}
+	w.fwdMu.Unlock()
 	for _, name := range sortedKeys(w.Clients) {
 		w.Clients[name].Stop()
 	}
